@@ -175,9 +175,8 @@ def run(ctx: Ctx) -> None:
                 return inst, [line], {}
             try:
                 outs = I.explore("parser.Parser._get_include_filename", make)
-            except AnalysisError as ex:
-                ctx.finding("I6", f"quote={q or 'none'} comment={comment}", repo.loc("parser", repo.func("parser.Parser._get_include_filename")), f"cannot evaluate: {ex}")
-                continue
+            except AnalysisError:
+                raise
             want = SStr([body()])
             good = len(outs) == 1 and outs[0].kind == "return" and outs[0].value == want
             ctx.check(good, "I6", f"quote={q or 'none'} comment={comment}", repo.loc("parser", repo.func("parser.Parser._get_include_filename")), f"returns {outs[0].value!r}" if outs else "", f"returns {[(o.kind, o.value, o.exc) for o in outs]}, expected the bare name")
